@@ -734,7 +734,8 @@ def h4(ctx, rep, entries, O):
             if cls not in ("hash", "lines"):
                 continue
             nsens += 1
-            if t.op == "first_err":
+            if t.op == "first_err" or (t.op == "find_val" and only_in_err(t, par)):
+                # which of several offending lines / systems the error message names
                 adm["error-selection"] = adm.get("error-selection", 0) + 1
                 continue
             if t.op == "index" and len(t.a) > 1 and t.a[1] is tm.ZERO and only_length_use(t, par):
